@@ -620,15 +620,15 @@ func Module() *object.Module {
 		"write_file":      object.NewBuiltin("write_file", WriteFile),
 		"stdin": object.NewDynamicAttr("stdin", func(ctx context.Context, name string) (object.Object, error) {
 			f := GetOS(ctx).Stdin()
-			return object.NewFile(ctx, f, "/dev/stdin"), nil
+			return object.NewHostFile(ctx, f, "/dev/stdin"), nil
 		}),
 		"stdout": object.NewDynamicAttr("stdout", func(ctx context.Context, name string) (object.Object, error) {
 			f := GetOS(ctx).Stdout()
-			return object.NewFile(ctx, f, "/dev/stdout"), nil
+			return object.NewHostFile(ctx, f, "/dev/stdout"), nil
 		}),
 		"stderr": object.NewDynamicAttr("stderr", func(ctx context.Context, name string) (object.Object, error) {
 			f := GetOS(ctx).Stderr()
-			return object.NewFile(ctx, f, "/dev/stderr"), nil
+			return object.NewHostFile(ctx, f, "/dev/stderr"), nil
 		}),
 		"err_not_exist":         object.NewError(goos.ErrNotExist).WithRaised(false),
 		"err_exist":             object.NewError(goos.ErrExist).WithRaised(false),
